@@ -21,7 +21,7 @@ through _bring_to_range/_normalise, i.e. numeric reasoning.
 """
 import ast
 
-from ..source import norm, short, decorators
+from ..source import class_methods, norm, short, decorators
 from ..flow import own_nodes
 from .. import mutate as mu
 from .. import valuesmodel as vm
@@ -53,8 +53,38 @@ def _shared(ctx, rep):
         rep.ob('shared.%s' % mod.PROP, '%s (%d obligations of %s)' % (what, n, mod.PROP), n > 0 and not sub.errors, '; '.join(sub.errors))
 
 
+def _exponent_limits(ctx, rep):
+    """Float is the shared base of Single (24-bit mantissa) and Double (56-bit).  An exponent compared with a bare
+    integer there is right for both only if the number does not depend on the mantissa width: 0 and 255 (the 8-bit
+    exponent field).  Anything else has to be built from the type's own attributes (size, bias, digits ...).  On
+    the pinned tree imul tested `lexp < -31`, the single-precision product width, and flushed representable
+    double products (1D-30*1) to zero (repaired in /repo 60da5cf7)."""
+    import re
+    cls = ctx.cls(vm.NUMBERS + ':Float')
+    is_exp = re.compile(r'^[lr]?exp\d*$')
+    n = 0
+    for m in class_methods(cls).values():
+        for c in own_nodes(m):
+            if not (isinstance(c, ast.Compare) and len(c.ops) == 1):
+                continue
+            sides = [c.left, c.comparators[0]]
+            for a, b in (sides, sides[::-1]):
+                if isinstance(a, ast.Name) and is_exp.match(a.id):
+                    n += 1
+                    lit = None
+                    if isinstance(b, ast.Constant) and isinstance(b.value, int):
+                        lit = b.value
+                    elif isinstance(b, ast.UnaryOp) and isinstance(b.op, ast.USub) and isinstance(b.operand, ast.Constant) and isinstance(b.operand.value, int):
+                        lit = -b.operand.value
+                    ok = lit is None or lit in (0, 255, 256)
+                    rep.ob('exponent.limits-independent-of-mantissa-width', 'Float.%s: %s' % (m.name, norm(c)), ok,
+                           'a bare %s cannot be right for both the 24-bit and the 56-bit mantissa: derive the limit from the type (size, bias, digits)' % lit, ctx.where(c))
+    rep.floor('exponent.limits-independent-of-mantissa-width', n, 3, 'exponent comparisons in Float')
+
+
 def check(ctx, rep):
     _shared(ctx, rep)
+    _exponent_limits(ctx, rep)
     # idiv
     idiv = ctx.fn(N + ':Float.idiv')
     fl = ctx.flow(idiv)
@@ -152,6 +182,8 @@ def variants(ctx):
         return lambda tree: f(mu.find_def(tree, fname))
 
     return [
+        Va('imul-single-width-underflow-bound', 'break', vm.NUMBERS,
+           lambda tree: mu.replace_expr(mu.find_def(tree, 'Float.imul'), mu.text_is('lexp < 1 - 8 * self.size'), 'lexp < -31'), expect='exponent.limits'),
         Va('idiv-no-zero-check', 'break', N, in_fn('Float.idiv', lambda fn: mu.remove_stmt(fn, mu.stmt_has('right_in.is_zero()', ast.If))), expect='div-zero'),
         Va('idiv-raise-without-max', 'break', N,
            in_fn('Float.idiv', lambda fn: mu.remove_stmt(fn, mu.stmt_has('self.from_bytes(self.neg_max', ast.Expr))), expect='div-zero.signed-maximum'),
